@@ -1,6 +1,6 @@
 (* C18 — Scalar operators obey their algebra on the whole int64/bool domain.
    Only statements here; each is closed by `exact <lemma>` (proofs in Proofs/OpsArith.v). *)
-Require Import Base Opcode Tables Ops OpsArith.
+Require Import Base Opcode Tables Ops OpsArith TableFacts.
 Open Scope Z_scope.
 
 (* arithmetic: exact left fold over Z, wrapped into int64 (two's complement) *)
@@ -102,23 +102,19 @@ Proof. reflexivity. Qed.
    compiler's isAndOpNode) exactly when the operator table implements it by the boolean `and` fold, likewise `or`; and in
    infix notation every spelling of one operator has the same precedence and arity, so an alias behaves like its named
    form there too *)
-Definition is_logic (m : lmode) (o : opcode) : bool := opcode_eqb o (OLogic m).
-Example C18_alias_tables_agree :
+Theorem C18_alias_tables_agree :
   forallb (fun p => Bool.eqb (existsb (String.eqb (fst p)) and_aliases) (is_logic LAnd (snd p))) builtin_table = true /\
   forallb (fun p => Bool.eqb (existsb (String.eqb (fst p)) or_aliases) (is_logic LOr (snd p))) builtin_table = true /\
   forallb (fun n => existsb (fun p => String.eqb (fst p) n) builtin_table) (and_aliases ++ or_aliases) = true.
-Proof. vm_compute. repeat split. Qed.
-Definition infix_of (n : string) : option (Z * Z) :=
-  match filter (fun p => String.eqb (fst p) n) infix_table with p :: _ => Some (snd p) | [] => None end.
-Example C18_infix_spellings_same_level :
+Proof. exact alias_tables_agree. Qed.
+Theorem C18_infix_spellings_same_level :
   infix_of "&" = infix_of "&&" /\ infix_of "|" = infix_of "||" /\ infix_of "=" = infix_of "==" /\
   infix_of "&&" <> None /\ infix_of "||" <> None /\ infix_of "==" <> None /\
-  (* and the conventional order: * / % over + - over ! over comparisons over && over || *)
   match infix_of "*", infix_of "+", infix_of "!", infix_of "<", infix_of "&&", infix_of "||" with
   | Some (a, _), Some (b, _), Some (c, _), Some (d, _), Some (e, _), Some (f, _) => (a >? b) && (b >? c) && (c >? d) && (d >? e) && (e >? f) = true
   | _, _, _, _, _, _ => False
   end.
-Proof. vm_compute. repeat split; discriminate. Qed.
+Proof. exact infix_spellings_same_level. Qed.
 
 Print Assumptions C18_arith_ring_fold.
 Print Assumptions C18_arith_div_fold.
